@@ -258,18 +258,15 @@ pub fn run(ctx: &mut Ctx) {
                             let l = if year_bad { if m == 2 { 28 } else { month_len(2001, m) } } else { month_len(y, m) };
                             d > l
                         };
-                        // a day past the end of the month is both "not a day of that month" and "a date not valid
-                        // for the month": the property does not say which of the two errors names it
                         let ok = match e {
                             Error::DateOutOfRange => year_bad,
                             Error::InvalidMonth => month_bad,
-                            Error::InvalidDay => day_bad || date_bad,
-                            Error::InvalidDate => date_bad || (!month_bad && d > 31),
+                            Error::InvalidDay => day_bad,
+                            Error::InvalidDate => date_bad,
                             _ => false,
                         };
                         acc.nontrivial += 1;
                         acc.cls(errk(&e));
-                        if matches!(e, Error::InvalidDay | Error::InvalidDate) { acc.cls("rejected_for_its_day"); }
                         if !ok {
                             acc.fail("C01:try_from_ymd:error-kind-matches-no-invalid-component", idx, || {
                                 (format!("Date::try_from_ymd({y}, {m}, {d})"),
@@ -291,7 +288,7 @@ pub fn run(ctx: &mut Ctx) {
             }
         }
     });
-    ctx.require(&r, &["accepted", "DateOutOfRange", "InvalidMonth", "rejected_for_its_day"]);
+    ctx.require(&r, &["accepted", "DateOutOfRange", "InvalidMonth", "InvalidDay", "InvalidDate"]);
 
     // hidden per-thread state: two-step histories from the initial state
     crate::history::two_step_histories(ctx, "C01", crate::history::Family::Accessors);
